@@ -100,6 +100,24 @@ def make_variant(design, mname, N, kind, first, rng):
         m["insts"].append({"name": "zqbo", "kind": "single", "of": ["leaf", "E2"], "tag": tagbase,
                            "conns": {"x": ["bref", N, ["y"]], "y": ["bref", N, ["x"]]}})
         extras = [N, "zqbo"]
+    elif kind == "port":
+        # a designer PORT of a sub-module with the colliding name; every parent instance connects it
+        if N in names or mname == d["top"]:
+            return None
+        m["ports"].append([N, 1, "none"])
+        m["insts"].append({"name": "zqpo", "kind": "single", "of": ["leaf", "E5"], "tag": tagbase, "conns": {"z": ["sig", N]}})
+        k = 0
+        for pm in d["modules"]:
+            for inst in pm["insts"]:
+                if inst["of"] == ["mod", mname]:
+                    if inst.get("kind", "single") != "single":
+                        return None
+                    sn = f"zqp{k}"
+                    pm["sigs"].append([sn, 1])
+                    inst["conns"][N] = ["sig", sn]
+                    pm["insts"].append({"name": f"zqpobs{k}", "kind": "single", "of": ["leaf", "E5"], "tag": tagbase + 1 + k, "conns": {"z": ["sig", sn]}})
+                    k += 1
+        extras = [N, "zqpo"]
     elif kind == "rename":
         if N in names or not m["sigs"]:
             return None
@@ -179,7 +197,7 @@ def run(ctx, rec):
     if ctx.nshards > 1:
         bases = bases[ctx.shard:: ctx.nshards]
     per_base = 8 if ctx.quick else 30
-    kinds = ["sig", "inst", "nc", "bun", "rename"]
+    kinds = ["sig", "inst", "nc", "bun", "rename", "port"]
     for label, base in bases:
         # the unrenamed base under M-name (clashes among invented names themselves)
         judge(rec, label + " [base]", base, False, {"kind": "base", "label": label, "design": base})
@@ -194,7 +212,16 @@ def run(ctx, rec):
             for N in designer_names(m):
                 cands.append((m["name"], N, "nc", "existing designer name", True))
         rng.shuffle(cands)
-        for (mname, N, kind, why, real) in cands[:per_base]:
+        # always: clashes with the flattened members of sub-modules' bundle PORTS (the parent must follow the fresh name)
+        must = []
+        for m in base["modules"][:-1]:
+            for bp in m.get("bports", []):
+                leaves = refsem.bundle_leaves(base, bp[1])[:2]
+                for path, w in leaves:
+                    N = refsem.flatname(bp[0], *path)
+                    for kind in ("port", "sig", "inst"):
+                        must.append((m["name"], N, kind, f"flattened member of bundle {bp[0]}", True))
+        for (mname, N, kind, why, real) in must[:6] + cands[:per_base]:
             first = rng.random() < 0.5
             v = make_variant(base, mname, N, kind, first, rng)
             if v is None:
